@@ -651,6 +651,8 @@ type autoRange struct {
 	cell    *Cell
 	lenT    *Term
 	strIter bool
+	seq     Value // the slice (or array, string) being ranged over, if it is an SSA register: "rangeexpr"
+	seqT    types.Type
 }
 
 func (a *autoRange) inv(ri *Term) *Term {
@@ -701,7 +703,13 @@ func (fr *Frame) autoRange(li *loopInfo) *autoRange {
 	if !ok || ls.T.Sort != SBV(64) {
 		return nil
 	}
-	return &autoRange{cell: cell, lenT: ls.T}
+	ar := &autoRange{cell: cell, lenT: ls.T}
+	if lc, ok := cmp.Y.(*ssa.Call); ok && len(lc.Call.Args) == 1 {
+		if v, ok := fr.regs[lc.Call.Args[0]]; ok {
+			ar.seq, ar.seqT = v, lc.Call.Args[0].Type()
+		}
+	}
+	return ar
 }
 
 type deferEntry struct {
@@ -735,6 +743,9 @@ type Frame struct {
 	preCall  *State
 	rets     []retPoint
 	rangeCell *Cell // while a loop's own clauses are evaluated: that loop's range index cell ("rangeindex")
+	loopEntry *State // ... and the state in which that loop was entered ("loopentry(e)")
+	rangeSeq  Value  // ... and the sequence it ranges over ("rangeexpr")
+	rangeSeqT types.Type
 }
 
 type retPoint struct {
@@ -1188,13 +1199,15 @@ func (fr *Frame) loopHead(li *loopInfo, st *State) *State {
 		fr.con.usedLoops[li.ord] = true
 	}
 	headPos := loopPos(li)
+	fr.loopEntry = st
+	defer func() { fr.loopEntry = nil }()
 	if a := fr.autoRange(li); a != nil && !a.strIter {
-		fr.rangeCell = a.cell
-		defer func() { fr.rangeCell = nil }()
+		fr.rangeCell, fr.rangeSeq, fr.rangeSeqT = a.cell, a.seq, a.seqT
+		defer func() { fr.rangeCell, fr.rangeSeq, fr.rangeSeqT = nil, nil, nil }()
 	}
-	for k, lc := range invs {
+	for _, lc := range invs {
 		g := fr.evalBool(lc.Expr, st, lc.Src)
-		p.oblige(fr.loopName(li, "inv-init", k+1), "inv-init", headPos, st.Guard, g, "loop invariant holds on entry: "+lc.Src)
+		p.oblige(fr.loopName(li, "inv-init", lc.N), "inv-init", headPos, st.Guard, g, "loop invariant holds on entry: "+lc.Src)
 	}
 	if fr.con != nil {
 		k := 0
@@ -1358,9 +1371,11 @@ func (fr *Frame) backEdge(li *loopInfo, st *State) {
 	p := fr.p
 	invs, decs := fr.loopClauses(li)
 	pos := loopPos(li)
+	fr.loopEntry = li.entrySt
+	defer func() { fr.loopEntry = nil }()
 	if li.auto != nil && !li.auto.strIter {
-		fr.rangeCell = li.auto.cell
-		defer func() { fr.rangeCell = nil }()
+		fr.rangeCell, fr.rangeSeq, fr.rangeSeqT = li.auto.cell, li.auto.seq, li.auto.seqT
+		defer func() { fr.rangeCell, fr.rangeSeq, fr.rangeSeqT = nil, nil, nil }()
 	}
 	if fr.con != nil {
 		k := 0
@@ -1377,9 +1392,9 @@ func (fr *Frame) backEdge(li *loopInfo, st *State) {
 			}
 		}
 	}
-	for k, lc := range invs {
+	for _, lc := range invs {
 		g := fr.evalBool(lc.Expr, st, lc.Src)
-		p.oblige(fr.loopName(li, "inv-pres", k+1), "inv-pres", pos, st.Guard, g, "loop invariant preserved: "+lc.Src)
+		p.oblige(fr.loopName(li, "inv-pres", lc.N), "inv-pres", pos, st.Guard, g, "loop invariant preserved: "+lc.Src)
 	}
 	if li.auto != nil {
 		if v, ok := st.Locals[li.auto.cell]; ok {
@@ -1400,7 +1415,7 @@ func (fr *Frame) backEdge(li *loopInfo, st *State) {
 		h := li.decHead[k]
 		_ = t
 		goal := And(BVSle(BVInt(0, m.Width()), h), BVSlt(m, h))
-		p.oblige(fr.loopName(li, "dec", k+1), "dec", pos, st.Guard, goal, "loop measure decreases and is bounded below: "+lc.Src)
+		p.oblige(fr.loopName(li, "dec", lc.N), "dec", pos, st.Guard, goal, "loop measure decreases and is bounded below: "+lc.Src)
 	}
 }
 
